@@ -44,8 +44,9 @@ CLAIMED.update({
     "C06": dict(
         text=("Metamorphic exploration: each generated dataflow program is wired in 2-3 random admissible statement orders and must give "
               "identical per-node evaluation streams, cycle times and node counts; a duplicated statement (intern-eligible vs forced unique) "
-              "must not change any recorder stream, near-duplicates (one scalar / one input / function changed) and identical sinks must "
-              "remain distinct nodes."),
+              "must not change any recorder stream, near-duplicates (one scalar / one input / function changed / one input passive) and identical sinks - "
+              "plain, nested, map_ and switch_ statements without an output - must remain distinct nodes; projection twins over a bundle / list argument and "
+              "switch_ twins that differ only in their keyword-to-slot mapping must each compute their own stream."),
         technique="property-based testing: metamorphic relation (permutation / duplication) between runs of the real engine",
         ref="DESIGN.md §5 C06", note=NOTE_COMMON + " Scalar-type collisions (1 vs true) are not exercised because harness nodes carry one string scalar."),
     "C18": dict(
@@ -61,7 +62,7 @@ CLAIMED.update({
     "C04": dict(
         text=("Model-based exploration of the four endpoint facts: a scripted writer over random schemas (depth <= 3) follows a generated "
               "write history with several writes per cycle, gaps, child-only writes, whole-value writes of partially populated bundle values "
-              "(incl. values that populate nothing) and explicit invalidations; consumers are bound to the "
+              "(incl. values that populate nothing), whole-set and whole-dictionary writes (copy and move form, incl. the empty collection) and explicit invalidations; consumers are bound to the "
               "whole output, to a child path and from inside a nested child; a metronome forces a cycle at every smallest step. After every "
               "cycle modified / valid / last-modified-time / value / per-tick delta are read at every node of the producer's tree and of "
               "every consumer's view and compared with the write history and with each other. Known findings F2 (invalidation) and F9 "
@@ -73,7 +74,8 @@ CLAIMED.update({
               "values)/TSL/TSB/TSW with cancelling pairs, re-insertions, clears and growth across slot-capacity boundaries; at every tick "
               "the observed value must equal the sequentially applied script, and value(t) must equal value(t-1) with the observed delta "
               "applied (added/removed disjoint, removed present before, cancelled mutations leaving no trace), the typed accessors and "
-              "capture_delta must agree with delta_value, windows must hold the last N pushes and be valid from their minimum count. "
+              "capture_delta must agree with delta_value, tick-count and duration windows (pushed, cleared, cleared-and-pushed) must hold the last N pushes / the pushes of the "
+              "last range, report the element pushed out by a tick (and none after a clear) and be valid from their minimum count. "
               "Known findings F3 and F6 are excluded by construction and counted."),
         technique="property-based testing: Hypothesis composite + RuleBasedStateMachine histories, reference value model, delta/value coherence invariants",
         ref="DESIGN.md §5 C05, §5a F3 F6", note=NOTE_COMMON + " Payloads of never-written children are not compared."),
@@ -122,15 +124,15 @@ CLAIMED.update({
         ref="DESIGN.md §5 C11", note=NOTE_COMMON + " Dynamic TSL is not exercised; same-cycle erase+rewrite (F6/F7) is not generated."),
     "C12": dict(
         text=("Differential exploration of switch_: generated branches (stateless, stateful, self-scheduling, key-consuming, default, "
-              "reload_on_ticked) and key histories with rapid flips and returns; the switch output must equal the concatenation of the "
+              "reload_on_ticked, ending in a plain node or in a nested graph node, scalar or collection output) and key histories with rapid flips and returns; the switch output must equal the concatenation of the "
               "selected branches run ALONE per interval in a second engine run (inputs sampled at the switch), no deselected instance may "
               "run user code after its stop, at most one child is alive, an unmatched key without default must fail the run."),
         technique="property-based testing: differential (switch_ vs per-interval solo run of the branch) between engine runs + lifecycle invariants",
         ref="DESIGN.md §5 C12", note=NOTE_COMMON),
     "C13": dict(
-        text=("Model-based exploration of references: if_then_else (two targets), if_cmp over cmp_ (three targets) or pass-through switch_ branches over TS/TSS/TSD/TSB targets (separate outputs or sibling children of one output) (optionally through a nested pass-through) read "
+        text=("Model-based exploration of references: if_then_else (two targets), if_cmp over cmp_ (three targets), the re-publishing router if_(c, a) or pass-through switch_ branches over TS/TSS/TSD/TSB targets (separate outputs or sibling children of one output) (optionally through a nested pass-through) read "
               "by 1-3 consumers and by a consumer of the reference itself; a model of 'current target' predicts for every cycle whether "
-              "each consumer is evaluated, the value it reads, the retarget delta for sets/dictionaries, that re-published selections and "
+              "each consumer is evaluated, the value it reads, for sets/dictionaries the retarget delta and on ordinary ticks the target's own delta, that re-published selections and "
               "unselected targets cause no evaluation, and that the reference output ticks only on a real selection change. Known finding "
               "F5 (stale removed entries in the retarget delta) is excluded and counted."),
         technique="property-based testing: Hypothesis timing generator + current-target reference model",
@@ -180,7 +182,7 @@ CLAIMED.update({
 CLAIMED.update({
     "C16": dict(
         text=("Schedule-steered exploration of the push queue: real-time runs with 1-4 producer threads following generated phase scripts "
-              "(free-running with jitter, consumer provably latched inside an evaluation, loop idle-waiting after a measured drain, racing "
+              "(free-running with jitter, consumer provably latched inside an evaluation, a sink that sends a value back into the source from the evaluation thread, a second source, loop idle-waiting after a measured drain, racing "
               "request_stop, after run() returned), queue / burst / conflating policies, capacities unbounded/1/2/5, blocking and "
               "non-blocking sends; every send and delivery carries a global atomic sequence. The history is checked for exactly-once in-order "
               "delivery per producer, happens-before across producers, one value (or one in-order tuple) per strictly later cycle, no loss "
